@@ -257,13 +257,22 @@ func c06GenYAML(r *rand.Rand, c *c06Case) {
 		prof.MaxDepth, prof.MaxWidth = 2+r.IntN(3), 2+r.IntN(4)
 		var t *genc06.YN
 		na, nm := 0, 0
-		if r.IntN(2) == 0 {
+		if r.IntN(4) == 0 {
+			// aliases in KEY position only (no alias or merge anywhere in value position)
+			t = genc06.C06Tree(r, prof)
+			nk := genc06.C06AddAliasKeys(r, t)
+			c.tags = append(c.tags, fmt.Sprintf("alias_keys:%d", min(nk, 3)))
+		} else if r.IntN(2) == 0 {
 			t, nm = genc06.C06MergeDoc(r, prof)
 			a2, m2 := genc06.C06AddAliases(r, t, false)
 			na, nm = a2, nm+m2
 		} else {
 			t = genc06.C06Tree(r, prof)
 			na, nm = genc06.C06AddAliases(r, t, r.IntN(3) != 0)
+			if r.IntN(4) == 0 {
+				nk := genc06.C06AddAliasKeys(r, t)
+				c.tags = append(c.tags, fmt.Sprintf("alias_keys:%d", min(nk, 3)))
+			}
 		}
 		c.tags = append(c.tags, fmt.Sprintf("aliases:%d", min(na, 3)), fmt.Sprintf("merges:%d", min(nm, 3)))
 		docs = []*genc06.YN{t}
@@ -971,6 +980,9 @@ func c06FromNode(n *yaml.Node, unordered map[*ref.V]bool, depth ...int) (*ref.V,
 		v := &ref.V{K: ref.Map, M: []ref.KV{}}
 		for i := 0; i+1 < len(n.Content); i += 2 {
 			k, val := n.Content[i], n.Content[i+1]
+			if k.Kind == yaml.AliasNode && k.Alias != nil && k.Alias.Kind == yaml.ScalarNode {
+				k = k.Alias
+			}
 			if k.Kind != yaml.ScalarNode {
 				return nil, fmt.Errorf("non-scalar key")
 			}
